@@ -204,10 +204,24 @@ pub struct StdSendError { _p: () }
 #[verifier::external_body]
 pub struct StdSender { _p: () }
 impl StdSender { #[verifier::external_body] pub fn send(&self, v: ()) -> (r: Result<(), StdSendError>) ensures r is Ok { unimplemented!() } }
+/// PROPHECY names: the registration / deregistration command the arbiter thread sends during the verified call, with the
+/// queue it is sent on (R8: the two `.send(SystemCommand::…)` calls are told apart by their argument's constructor)
+pub uninterp spec fn reg_cmd() -> (int, SystemCommand);
+pub uninterp spec fn dereg_cmd() -> (int, SystemCommand);
+impl mpsc::UnboundedSender<SystemCommand> {
+    #[verifier::external_body]
+    pub fn send_reg(&self, c: SystemCommand) -> (r: Result<(), mpsc::SendError<SystemCommand>>) ensures reg_cmd() == (self.chan(), c) { unimplemented!() }
+    #[verifier::external_body]
+    pub fn send_dereg(&self, c: SystemCommand) -> (r: Result<(), mpsc::SendError<SystemCommand>>) ensures dereg_cmd() == (self.chan(), c) { unimplemented!() }
+}
 
-//@extract file=actix-rt/src/arbiter.rs item="impl Arbiter / fn with_tokio_rt" closure_block=1 block_sig="fn arbiter_thread_body<F: FnOnce() -> TokioRuntime>(runtime_factory: F, tx: mpsc::UnboundedSender<ArbiterCommand>, sys: System, arb_id: usize, ready_tx: StdSender, rx: mpsc::UnboundedReceiver<ArbiterCommand>)" props=C09,C10 name=arbiter::thread_body tls_state="HANDLE:handle" tls_calls="System::set_current,System::current,System::try_current,System::is_registered,Arbiter::current,Arbiter::try_current" trace_calls="ready_tx.send,send,block_on"
+//@extract file=actix-rt/src/arbiter.rs item="impl Arbiter / fn with_tokio_rt" closure_block=1 block_sig="fn arbiter_thread_body<F: FnOnce() -> TokioRuntime>(runtime_factory: F, tx: mpsc::UnboundedSender<ArbiterCommand>, sys: System, arb_id: usize, ready_tx: StdSender, rx: mpsc::UnboundedReceiver<ArbiterCommand>, system_id: usize, name: String)" props=C09,C10 name=arbiter::thread_body tls_state="HANDLE:handle" tls_calls="System::set_current,System::current,System::try_current,System::is_registered,Arbiter::current,Arbiter::try_current" trace_calls="ready_tx.send,send,block_on"
 //@replace pattern="crate::runtime::Runtime::from(" rule=R15
 Runtime::from(
+//@replace pattern=".send(SystemCommand::RegisterArbiter(" rule=R8
+.send_reg(SystemCommand::RegisterArbiter(
+//@replace pattern=".send(SystemCommand::DeregisterArbiter(" rule=R8
+.send_dereg(SystemCommand::DeregisterArbiter(
 //@spec
     requires call_requires(runtime_factory, ()), tx.chan() == rx.chan(),
 //@insert before="({ let r24_v = ready_tx"
@@ -219,6 +233,11 @@ Runtime::from(
         // then: ready, the command loop runs on THIS arbiter's queue, and the arbiter is deregistered when the loop has ended   [C09,C10]
         assert(r24_trace == seq![1int, 0int, 2int, 1int]);   // [C09]
         assert(rt.ran_chan() == tx.chan());   // [C10] tasks sent through the handle run on this thread
+        // WHAT is registered and deregistered: this arbiter, under ITS OWN number, with the handle that feeds its queue —
+        // so a system stop reaches it, and its deregistration removes no other arbiter's entry   [C09]
+        assert(reg_cmd().1 matches SystemCommand::RegisterArbiter(id, h) && id == arb_id && h.tx.chan() == tx.chan());   // [C09]
+        assert(dereg_cmd().1 matches SystemCommand::DeregisterArbiter(id) && id == arb_id);   // [C09]
+        assert(reg_cmd().0 == dereg_cmd().0);   // [C09] both go to the same system
 //@end
 
 
